@@ -253,7 +253,8 @@ class C12(Prop):
                "incidence triples of the real grid are passed to the model as exact rationals"]
     assumptions = ["Aavatsmark_transmissibilities off; every face of a periodic map has exactly one "
                    "stored incidence entry; cases where the implementation produces a non-finite "
-                   "entry (an exactly zero half transmissibility) are counted and skipped",
+                   "entry (an exactly zero half transmissibility), or where half transmissibilities of "
+                   "opposite sign cancel in the harmonic mean to below 1e-6, are counted and skipped",
                    "non-zero half transmissibilities (no division by zero in 1/t_face)"]
 
     # ------------------------------------------------------------------ generation
@@ -386,6 +387,18 @@ class C12(Prop):
             self._stats["degenerate"] = self._stats.get("degenerate", 0) + 1
             return {"degenerate": True, "nc": int(g.num_cells)}
         fi, ci, sgn = sparse_array_to_row_col_data(g.cell_faces)
+        if not (case["grid"].get("pmap")):
+            # harmonic mean of half transmissibilities of opposite sign that nearly cancel:
+            # 1/t1 + 1/t2 ~ 0 makes the floating-point result meaningless (skipped, counted)
+            nrm = g.face_normals[:, fi] * sgn
+            dv = g.face_centers[:, fi] - g.cell_centers[:, ci]
+            kn = np.einsum("ijk,jk->ik", K.values[:, :, ci], nrm)
+            th = (kn * dv).sum(axis=0) / (dv * dv).sum(axis=0)
+            num = np.bincount(fi, weights=1 / th, minlength=g.num_faces)
+            den = np.bincount(fi, weights=np.abs(1 / th), minlength=g.num_faces)
+            if np.any(np.abs(num) < 1e-6 * den):
+                self._stats["degenerate"] = self._stats.get("degenerate", 0) + 1
+                return {"degenerate": True, "nc": int(g.num_cells)}
         pm = case["grid"].get("pmap") or [[], []]
         res = {"pmap": [[int(l), int(r)] for l, r in zip(pm[0], pm[1])],"dim": int(g.dim), "nf": int(g.num_faces), "nc": int(g.num_cells),
                "cf": [[int(a), int(b), int(c)] for a, b, c in zip(fi, ci, sgn)],
